@@ -34,6 +34,7 @@ func defaultCfg() *HarnessCfg {
 
 type HarnessResult struct {
 	Name            string              `json:"name"`
+	Pkg             string              `json:"pkg"`
 	Paths           int                 `json:"paths"`
 	PathsDone       int                 `json:"paths_done"`
 	PathsAssumeCut  int                 `json:"paths_assume_cut"`
@@ -110,7 +111,7 @@ func (r *HarnessResult) noteInconclusive(msg string) {
 // runHarness explores all paths of one harness function.
 func runHarness(prog *ssa.Program, fn *ssa.Function, cfg *HarnessCfg) *HarnessResult {
 	t0 := time.Now()
-	res := &HarnessResult{Name: fn.Name(), AssertsReached: map[string]int{}, Covers: map[string]int{}, Panics: map[string]int{}}
+	res := &HarnessResult{Name: fn.Name(), Pkg: strings.TrimPrefix(fn.Pkg.Pkg.Path(), "github.com/NethermindEth/juno/"), AssertsReached: map[string]int{}, Covers: map[string]int{}, Panics: map[string]int{}}
 	stats := &SolverStats{}
 	st := NewTermStore()
 	// per-harness directives in the doc comment: //vx:solver <kind>, //vx:solver-timeout <ms>
